@@ -315,6 +315,7 @@ func ruleParaRestStart(c *Ctx) {
 		}
 		return v.(*ssa.UnOp), fa.X, true
 	}
+	posStoreSet := mayStoreFieldSet(p, "inlineByteReader", "pos")
 	type site struct {
 		fn  *ssa.Function
 		at  ssa.Instruction // the store, or the call of the helper that stores
@@ -450,6 +451,10 @@ func ruleParaRestStart(c *Ctx) {
 				takesR := func(x ssa.Instruction) bool {
 					cl, ok := x.(*ssa.Call)
 					if !ok || r == nil {
+						return false
+					}
+					// a call that only inspects the reader (current(), a position accessor) does not move it
+					if g := cl.Call.StaticCallee(); g != nil && p.InModule(g) && !posStoreSet[g] {
 						return false
 					}
 					for _, a := range cl.Call.Args {
@@ -722,6 +727,29 @@ func spilledParam(v ssa.Value) (*ssa.Parameter, bool) {
 	u, ok := v.(*ssa.UnOp)
 	if !ok || u.Op != token.MUL {
 		return nil, false
+	}
+	if fv, ok := u.X.(*ssa.FreeVar); ok {
+		// captured by a closure: the cell bound where the closure is made
+		fn := fv.Parent()
+		if fn == nil || fn.Parent() == nil {
+			return nil, false
+		}
+		idx := -1
+		for i, f := range fn.FreeVars {
+			if f == fv {
+				idx = i
+			}
+		}
+		var cell ssa.Value
+		eachInstr(fn.Parent(), func(in ssa.Instruction) {
+			if mc, ok := in.(*ssa.MakeClosure); ok && mc.Fn == ssa.Value(fn) && idx >= 0 && idx < len(mc.Bindings) {
+				cell = mc.Bindings[idx]
+			}
+		})
+		if cell == nil {
+			return nil, false
+		}
+		return spilledParam(&ssa.UnOp{Op: token.MUL, X: cell})
 	}
 	al, ok := u.X.(*ssa.Alloc)
 	if !ok {
